@@ -143,6 +143,10 @@ def generate():
         out["load_outcomes"] = [k for k, _ in exl.outcomes]
     except (X.Unsupported, pyexec.Unsupported, KeyError, AttributeError, IndexError) as e:
         out["stale"].append(("IndxIO.load", "%s: %s" % (type(e).__name__, e)))
+        part = getattr(e, "partial", None)
+        if part is not None:
+            # obligations generated before the unsupported construct (field alignment, widths, overflow of what was read so far)
+            out["obls"] += [_tag(o, "load") for o in part.obls]
     # the prefix run stops where the file is mapped: it is generated on its own, whatever follows the mapping
     try:
         if fnl is not None:
